@@ -75,6 +75,12 @@ type FnCtx struct {
 	returnReach []Term
 	blockIns    map[*ssa.BasicBlock][]Term
 	blockVias   map[*ssa.BasicBlock][]string
+	blockFroms  map[*ssa.BasicBlock][]*ssa.BasicBlock
+	curBlock    *ssa.BasicBlock
+	logBlk      []int // block index the log entry was generated in (-1: none)
+	ancCache    map[*ssa.BasicBlock]map[int]bool
+	lastFroms   []*ssa.BasicBlock
+	lastChain   []*ssa.BasicBlock
 	lastVias    []string
 	dropped     map[*Clause]bool
 	facts       []Term
@@ -92,6 +98,11 @@ func (fc *FnCtx) assumeRaw(t Term) {
 		return
 	}
 	fc.log = append(fc.log, "(assert "+t+")")
+	bi := -1
+	if fc.curBlock != nil {
+		bi = fc.curBlock.Index
+	}
+	fc.logBlk = append(fc.logBlk, bi)
 }
 
 func (fc *FnCtx) assume(t Term) {
